@@ -38,6 +38,7 @@ package gtpv1
 //@   serves C14
 
 //@ func (m Message) Len() (l int)
+//@   locals l:int | e:gtpv1.Encoder
 //@   requires upfForm(m)
 //@   ensures [len] l == 12 + 4*len(m.Exts) + len(m.Payload)
 //@   modifies nothing
@@ -47,6 +48,7 @@ package gtpv1
 //@     invariant [acc] l == 11 + 4*idx
 
 //@ func (m Message) Encode(b []byte) (n int, err error)
+//@   locals l:int | pos:int | e:gtpv1.Encoder | n:int | err:error
 //@   requires upfForm(m)
 //@   requires len(b) == 12 + 4*len(m.Exts) + len(m.Payload)
 //@   requires separate(b, m.Payload)
